@@ -42,6 +42,8 @@ func inBubble(t *testing.T, instant time.Time, zone string, fn func()) (pv any) 
 		}
 		if d := instant.Sub(time.Now()); d > 0 {
 			time.Sleep(d)
+		} else if d < 0 {
+			harnessf("simulated instant %v precedes the bubble epoch", instant)
 		}
 		fn()
 	})
